@@ -317,9 +317,27 @@ func quoteCharsRule(r *Report, p *Prog, rule, rel string) {
 		r.bad(rule, key, "", "package not loaded: anchor lost")
 		return
 	}
-	leading := func(fd *ast.FuncDecl) map[string]bool {
+	isFirstByte := func(e ast.Expr) bool {
+		ix, ok := ast.Unparen(e).(*ast.IndexExpr)
+		if !ok {
+			return false
+		}
+		tv, ok := pk.TypesInfo.Types[ix.Index]
+		return ok && tv.Value != nil && tv.Value.String() == "0"
+	}
+	leading := func(root ast.Node) map[string]bool {
 		out := map[string]bool{}
-		ast.Inspect(fd.Body, func(n ast.Node) bool {
+		ast.Inspect(root, func(n ast.Node) bool {
+			if sw, ok := n.(*ast.SwitchStmt); ok && sw.Tag != nil && isFirstByte(sw.Tag) {
+				for _, cc := range sw.Body.List {
+					for _, e := range cc.(*ast.CaseClause).List {
+						if lit, ok := ast.Unparen(e).(*ast.BasicLit); ok && lit.Kind == token.CHAR {
+							out[lit.Value] = true
+						}
+					}
+				}
+				return true
+			}
 			be, ok := n.(*ast.BinaryExpr)
 			if !ok || be.Op != token.EQL {
 				return true
@@ -351,8 +369,52 @@ func quoteCharsRule(r *Report, p *Prog, rule, rel string) {
 		})
 		return found
 	}
+	// unguarded: calls of the unquoting functions that are not inside the body
+	// of a branch taken on a first-byte test (the reader then unquotes whatever
+	// strconv accepts, a 'x' rune literal included, which no writer quotes).
+	unguarded := func(fd *ast.FuncDecl) []token.Pos {
+		var out []token.Pos
+		var stack []ast.Node
+		ast.Inspect(fd.Body, func(n ast.Node) bool {
+			if n == nil {
+				stack = stack[:len(stack)-1]
+				return true
+			}
+			stack = append(stack, n)
+			c, ok := n.(*ast.CallExpr)
+			if !ok {
+				return true
+			}
+			sel, ok := c.Fun.(*ast.SelectorExpr)
+			if !ok || (sel.Sel.Name != "Unquote" && sel.Sel.Name != "QuotedPrefix") {
+				return true
+			}
+			if id, ok := sel.X.(*ast.Ident); !ok || id.Name != "strconv" {
+				return true
+			}
+			guarded := false
+			for _, a := range stack {
+				switch x := a.(type) {
+				case *ast.IfStmt:
+					if x.Body.Pos() <= c.Pos() && c.End() <= x.Body.End() && len(leading(x.Cond)) > 0 {
+						guarded = true
+					}
+				case *ast.SwitchStmt:
+					if x.Tag != nil && isFirstByte(x.Tag) && x.Body.Pos() <= c.Pos() && c.End() <= x.Body.End() {
+						guarded = true
+					}
+				}
+			}
+			if !guarded {
+				out = append(out, c.Pos())
+			}
+			return true
+		})
+		return out
+	}
 	writer := map[string]bool{}
 	readers := map[string]map[string]bool{}
+	var bad []string
 	var wpos token.Pos
 	for _, f := range pk.Syntax {
 		if strings.HasSuffix(p.Fset.Position(f.Pos()).Filename, "_test.go") {
@@ -371,6 +433,9 @@ func quoteCharsRule(r *Report, p *Prog, rule, rel string) {
 			}
 			if calls(fd, "Unquote") || calls(fd, "QuotedPrefix") {
 				readers[fd.Name.Name] = leading(fd)
+				for _, at := range unguarded(fd) {
+					bad = append(bad, fmt.Sprintf("%s unquotes at %s without first testing the leading byte, so it also unquotes what the writer writes bare (a value spelled like a rune literal, 'a')", fd.Name.Name, p.pos(at)))
+				}
 			}
 		}
 	}
@@ -378,7 +443,6 @@ func quoteCharsRule(r *Report, p *Prog, rule, rel string) {
 		r.bad(rule, key, "", "no writer that quotes or no reader that unquotes found in the package: anchor lost")
 		return
 	}
-	var bad []string
 	n := 0
 	for name, set := range readers {
 		for ch := range set {
@@ -394,4 +458,83 @@ func quoteCharsRule(r *Report, p *Prog, rule, rel string) {
 	} else {
 		r.ok(rule, key, p.pos(wpos), fmt.Sprintf("%d leading bytes of %d readers, all quoted by the writer", n, len(readers)))
 	}
+}
+
+// prefilterAlphabetRule (C02 PREFILTER-ALPHABET): Parse refuses a PyPI string
+// whose first bytes hold a letter outside the alphabet lettersInPyPI before the
+// PEP 440 parser sees it. The parser's keywords come from its tables
+// (pep440PreStrings' text column, pep440PostStrings), the constants handed to
+// hasASCIIPrefix (dev) and the leading v. Every letter of every keyword must be in the alphabet, or a
+// spelling PEP 440 accepts ("1alpha1": the l) is refused by the pre-filter.
+func prefilterAlphabetRule(r *Report, p *Prog, rule string) int {
+	pk := p.pkg("semver")
+	key := "semver.lettersInPyPI covers the letters of the PEP 440 keywords"
+	if pk == nil {
+		r.bad(rule, key, "", "package not loaded: anchor lost")
+		return 0
+	}
+	obj := pk.Types.Scope().Lookup("lettersInPyPI")
+	if obj == nil {
+		r.bad(rule, key, "", "lettersInPyPI not found: anchor lost")
+		return 0
+	}
+	c, ok := obj.(*types.Const)
+	if !ok || c.Val().Kind() != constant.String {
+		r.bad(rule, key, p.pos(obj.Pos()), "the alphabet of the pre-filter is no longer a string constant; its letters cannot be read off the source (undecided)")
+		return 0
+	}
+	alphabet := constant.StringVal(c.Val())
+	var words []string
+	if cl, ok := pkgVarInit(pk, "pep440PreStrings").(*ast.CompositeLit); ok {
+		for _, el := range cl.Elts {
+			if ecl, ok := el.(*ast.CompositeLit); ok && len(ecl.Elts) >= 1 {
+				e := ecl.Elts[0]
+				if kv, ok := e.(*ast.KeyValueExpr); ok {
+					e = kv.Value
+				}
+				if t, ok := constString(pk, e); ok {
+					words = append(words, t)
+				}
+			}
+		}
+	}
+	if cl, ok := pkgVarInit(pk, "pep440PostStrings").(*ast.CompositeLit); ok {
+		for _, el := range cl.Elts {
+			if t, ok := constString(pk, el); ok {
+				words = append(words, t)
+			}
+		}
+	}
+	// keywords given as constants to the case-insensitive prefix test ("dev")
+	for _, f := range pk.Syntax {
+		if strings.HasSuffix(p.Fset.Position(f.Pos()).Filename, "_test.go") {
+			continue
+		}
+		ast.Inspect(f, func(n ast.Node) bool {
+			if c, ok := n.(*ast.CallExpr); ok && len(c.Args) == 2 {
+				if id, ok := c.Fun.(*ast.Ident); ok && id.Name == "hasASCIIPrefix" {
+					if t, ok := constString(pk, c.Args[1]); ok {
+						words = append(words, t)
+					}
+				}
+			}
+			return true
+		})
+	}
+	words = append(words, "v")
+	var bad []string
+	for _, w := range words {
+		for _, ch := range strings.ToLower(w) {
+			if !strings.ContainsRune(alphabet, ch) {
+				bad = append(bad, fmt.Sprintf("%q (the %c)", w, ch))
+				break
+			}
+		}
+	}
+	if len(bad) > 0 {
+		r.bad(rule, key, p.pos(obj.Pos()), fmt.Sprintf("the pre-filter of Parse tolerates the letters %q only; the PEP 440 parser's keywords %s hold a letter outside it, so a version written with that spelling right after a one-digit release (1alpha1) is refused before the parser sees it", alphabet, strings.Join(bad, ", ")))
+	} else {
+		r.ok(rule, key, p.pos(obj.Pos()), fmt.Sprintf("%d keywords, every letter in %q", len(words), alphabet))
+	}
+	return len(words)
 }
